@@ -13,8 +13,14 @@ def scan(d: Decl, dump: str):
     if mod is None:
         return [('module found', False, '')]
     # 1. the inner field is private
-    m = re.search(r'pub struct ' + X + r'\s*(<[^>]*>)?\s*\(\s*(pub\b[^\)]*|[^\)]*)\)\s*;', dump)
-    out.append(('the tuple field is private', bool(m) and not m.group(2).strip().startswith('pub'), m.group(0) if m else 'struct not found'))
+    st = [it for it in inner if it.kind == 'struct' and re.search(r'\bstruct ' + X + r'\b', it.head)]
+    if len(st) != 1:
+        out.append(('the tuple field is private', False, 'struct not found'))
+    else:
+        text = dump[st[0].head_start:st[0].end]
+        po = text.find('(')
+        field = text[po + 1:].lstrip() if po >= 0 else 'pub'
+        out.append(('the tuple field is private', po >= 0 and not re.match(r'pub\b', field), text[:120]))
     # 2. no mutable views
     bad = []
     for it in inner:
@@ -44,5 +50,5 @@ def scan(d: Decl, dump: str):
     out.append(('Display/Error impls (outside Verus) contain no constructor call, no unsafe', not bad, '; '.join(bad)))
     # 5. nothing in the module is `unsafe` except new_unchecked
     n_unsafe = len(re.findall(r'\bunsafe\b', dump))
-    out.append(('no `unsafe` in the expansion except the sanctioned new_unchecked', n_unsafe == (1 if d.new_unchecked and fns else 0), 'occurrences: %d' % n_unsafe))
+    out.append(('UNDECIDED-IF-FALSE no `unsafe` in the expansion except the sanctioned new_unchecked', n_unsafe == (1 if d.new_unchecked and fns else 0), 'occurrences: %d' % n_unsafe))
     return out
